@@ -333,6 +333,7 @@ def run_sim(spec, listeners=(), failpoints=None, device=None, seed_solution=None
             rr.solver = solver
             if pre_solve is not None:
                 pre_solve(solver)
+                opt_before = _dc.asdict(options)  # (what the CALLER does to its own options in between is the caller's business)
             rr.solution = solver.solve()
             if spec.get("solve_twice"):
                 # the same TDGLSolver object is run again (a legitimate use of the public class):
